@@ -82,6 +82,36 @@ fn int_kind(e: &std::num::ParseIntError) -> &'static str {
     }
 }
 
+/// Runs every formatter of a returned value (`Debug`, pretty `Debug`); the text is not compared
+/// with anything (no property pins it) but it must come back: a panic inside a `fmt` impl unwinds
+/// into the per-operation guard and is reported as `panic` (C03: "every ... formatter ... on the
+/// values they return, returns normally").
+fn touch<T: std::fmt::Debug>(x: &T) {
+    use std::fmt::Write;
+    let mut sink = String::new();
+    let _ = write!(sink, "{:?}", x);
+    sink.clear();
+    let _ = write!(sink, "{:#?}", x);
+    std::hint::black_box(&sink);
+}
+
+/// The same for error values: `Display` (thiserror format strings) and the `source()` chain.
+fn touch_err<E: std::error::Error>(e: &E) {
+    let mut sink = e.to_string();
+    let mut cur: Option<&dyn std::error::Error> = e.source();
+    let mut depth = 0;
+    while let Some(c) = cur {
+        sink.push_str(&c.to_string());
+        cur = c.source();
+        depth += 1;
+        if depth > 8 {
+            break;
+        }
+    }
+    touch(e);
+    std::hint::black_box(&sink);
+}
+
 fn b01(b: bool) -> char {
     if b {
         '1'
@@ -201,6 +231,14 @@ fn v1_clobber(input: &[u8]) -> char {
 
 fn op_v1b(input: &[u8]) -> String {
     let r = v1::Header::try_from(input);
+    touch(&r);
+    match &r {
+        Ok(h) => {
+            touch(&h.to_owned());
+            touch(&h.addresses);
+        }
+        Err(e) => touch_err(e),
+    }
     format!("{} clob={}", v1_bin_result(&r), v1_clobber(input))
 }
 
@@ -213,7 +251,14 @@ fn op_v1s(rest: &str) -> String {
         Ok(s) => s,
         Err(_) => return "notutf8".to_string(),
     };
-    let a = guard(|| Some(v1_str_result(&v1::Header::try_from(s))));
+    let a = guard(|| {
+        let r = v1::Header::try_from(s);
+        touch(&r);
+        if let Err(e) = &r {
+            touch_err(e);
+        }
+        Some(v1_str_result(&r))
+    });
     let b = guard(|| {
         let r = s.parse::<v1::Header<'static>>();
         Some(v1_str_result(&r))
@@ -460,11 +505,34 @@ fn v2_clobber(input: &[u8]) -> char {
 
 fn op_v2(input: &[u8]) -> String {
     let r = v2::Header::try_from(input);
+    touch(&r);
+    match &r {
+        Ok(h) => {
+            touch(&h.to_owned());
+            touch(&h.addresses);
+            touch(&h.tlvs());
+            let items: Vec<_> = h.tlvs().take(input.len() / 3 + 3).collect();
+            touch(&items);
+            for it in items.iter().flatten() {
+                touch(&it.to_owned());
+            }
+            for e in items.iter().filter_map(|i| i.as_ref().err()) {
+                touch_err(e);
+            }
+        }
+        Err(e) => touch_err(e),
+    }
     format!("{} clob={}", v2_result(&r), v2_clobber(input))
 }
 
 fn op_auto(input: &[u8]) -> String {
     let r = HeaderResult::parse(input);
+    touch(&r);
+    match &r {
+        HeaderResult::V1(Err(e)) => touch_err(e),
+        HeaderResult::V2(Err(e)) => touch_err(e),
+        _ => {}
+    }
     let (inc, comp) = (r.is_incomplete(), r.is_complete());
     let inner = match &r {
         HeaderResult::V1(x) => format!("v1 {}", v1_bin_result(x)),
@@ -475,6 +543,15 @@ fn op_auto(input: &[u8]) -> String {
 
 fn op_tlv(input: &[u8]) -> String {
     let it = v2::TypeLengthValues::from(input);
+    touch(&it);
+    let items: Vec<_> = it.take(input.len() / 3 + 3).collect();
+    touch(&items);
+    for t in items.iter().flatten() {
+        touch(&t.to_owned());
+    }
+    for e in items.iter().filter_map(|i| i.as_ref().err()) {
+        touch_err(e);
+    }
     let meta = format!("slen={} sempty={}", it.len(), b01(it.is_empty()));
     format!("tlvs={} {}", tlv_items(it, input.len()), meta)
 }
